@@ -1097,3 +1097,57 @@ func VerifC12Cap(h *verifrt.H) {
 		h.Cover("end")
 	})
 }
+
+// VerifC09Patch: two clients send a creating structural patch (PatchFields, CreateIfNotExist,
+// INC n by 1) to ONE fresh key of an in-memory swamp at the same time. For every interleaving
+// within the preemption bound both are acknowledged, exactly one reports CREATED and the other
+// PATCHED, and the stored counter is 2: the second writer patches what the first one stored,
+// it does not start again from the seed body.
+func VerifC09Patch(h *verifrt.H) {
+	h.BackgroundLowPriority(true)
+	s := vfMem(h, nil)
+	s.BeginVigil()
+	created, patched := 0, 0
+	var last []byte
+	for _, n := range []string{"A", "B"} {
+		h.Go(n, func() {
+			r, err := s.PatchFields("k", []msgpackpatch.Op{{Kind: msgpackpatch.OpInc, Path: "n", Value: []byte{0x01}}}, nil, PatchFieldsOptions{CreateIfNotExist: true})
+			h.Assert(err == nil, "creating-patch-acknowledged")
+			switch r.Status {
+			case PatchStatusCreated:
+				created++
+			case PatchStatusPatched:
+				patched++
+			}
+			last = r.NewMsgpack
+		})
+	}
+	h.AtQuiescence(func() {
+		_ = last
+		h.Assert(created == 1 && patched == 1, "one-created-one-patched")
+		t, err := s.GetTreasure("k")
+		h.Assert(err == nil && t != nil, "record-exists")
+		if err == nil && t != nil {
+			b, berr := t.GetContentByteArray()
+			h.Assert(berr == nil, "record-has-body")
+			// stored form: 2-byte magic prefix + {n: 2}
+			ok := false
+			for i := 0; i+2 < len(b); i++ {
+				if b[i] == 0xa1 && b[i+1] == 'n' {
+					switch c := b[i+2]; {
+					case c == 0x02:
+						ok = true
+					case (c == 0xcf || c == 0xd3) && i+10 < len(b)+0 && i+10 <= len(b)-1+0:
+						ok = b[i+10] == 2
+						for j := i + 3; j < i+10; j++ {
+							ok = ok && b[j] == 0
+						}
+					}
+				}
+			}
+			h.Observe("body", b)
+			h.Assert(ok, "no-acknowledged-patch-lost")
+		}
+		h.Cover("end")
+	})
+}
